@@ -187,7 +187,7 @@ def run(ctx):
     dist = {"regime": {}, "flag_bit_set": {b: 0 for b in FLAGBITS}, "result": {}}
     viol, seen_known, distinct = [], {}, set()
     if ctx.tier == "quick":
-        rounds = [("C04", 600, ["-flags", "rand:2"])]
+        rounds = [("C04", 5000, ["-flags", "rand:2"])]
     else:
         rounds = [("C04", 8000, ["-flags", "rand:4"]), ("C04all", 0, ["-flags", "all", "-maxval", "2500"])]
     for name, n, extra in rounds:
